@@ -292,6 +292,10 @@ def backtrack_validated(rep, F, tag, rid):
             if r == 'zero()':
                 fl = [k for k, v in val.items() if k.startswith('lt(') and k.endswith(', arg4)') and v == 1] + [k for k, v in val.items() if k.startswith('le(arg4, ') and v == 0]
                 R.check(bool(fl), 'zero-only-below-floor' + tag, 'backtrack_search returns zero on a path where alpha < alpha_min was not found (%s)' % val, f.loc())
+                failed = [e for e in ev if e[0] == 'call' and e[1] == 'call' and str(e[2]).startswith('call(arg6, ') and val.get(str(e[2])) == 0]
+                R.check(bool(failed), 'zero-only-after-failed-trial' + tag,
+                        'backtrack_search gives up (returns zero) on a path that has not tested any trial point: the requested step itself must be tried first, whatever its size - '
+                        'a feasible small step is otherwise needlessly refused', f.loc())
                 continue
             tests = [i for i, e in enumerate(ev) if e[0] == 'call' and e[1] == 'call' and str(e[2]).startswith('call(arg6, ')]
             if not tests:
